@@ -5,6 +5,7 @@ pub mod cost;
 pub mod enumerate;
 pub mod fault;
 pub mod gen;
+pub mod huge;
 pub mod interp;
 pub mod model;
 pub mod ops_basic;
